@@ -7,6 +7,7 @@ import Rend.Wire.Decode
 import Rend.Handlers.Std
 import Rend.Handlers.Chunked
 import Rend.Handlers.Inmem
+import Rend.Handlers.Batched
 import Rend.Gen.Asm
 import Rend.Metrics.Hist
 import Rend.Cluster.Ketama
@@ -263,6 +264,24 @@ def step (st : St) (line : String) : St × List String :=
     -- what remains is only meaningful when the connection survives
     let restLen := if perrStr pr.err == "fatal" then 0 else pr.rest.length
     (st, [s!"{perrStr pr.err} {c} rest={restLen} alloc={pr.alloc}"])
+  | "batch" :: base :: reqs =>
+    let parseKey (t : String) : Batched.BKey :=
+      match t.splitOn "/" with
+      | [k, o, q] => { key := unhex k, opq := o.toNat!, quiet := q == "1" }
+      | _ => default
+    let parseReq (t : String) : Batched.BReq :=
+      match t.splitOn ";" with
+      | [kind, ch, fl, ex, dat, ks] =>
+        let kd : Batched.BKind := match kind with
+          | "set" => .set | "add" => .add | "replace" => .replace | "append" => .append | "prepend" => .prepend
+          | "delete" => .delete | "touch" => .touch | "gat" => .gat | "get" => .get | _ => .getE
+        { kind := kd, keys := if ks == "" then [] else (ks.splitOn ",").map parseKey, flags := fl.toNat!, exptime := ex.toNat!,
+          data := unhex dat, chan := ch.toNat! }
+      | _ => default
+    let (wire, table, counts) := Batched.assign base.toNat! (reqs.map parseReq)
+    let tbl := table.map fun h => s!"{h.wire}:{hexOfN 100000 h.key}:{h.opq}:{if h.quiet then 1 else 0}:{h.chan}"
+    (st, [s!"wire {hexOfN 256 wire}", "table " ++ " ".intercalate tbl,
+          "expected " ++ " ".intercalate (counts.map fun c => s!"{c.1}:{c.2}")])
   | "dump" :: "S" :: keys =>
     -- the specification's single map (as advanced by the `oracle` commands)
     (st, ["dump S " ++ " ".intercalate (keys.map fun k => s!"{k}={itemStr (st.spec.look st.now (unhex k))}")])
